@@ -37,31 +37,40 @@ func VerifC03_Ante() {
 			}
 		}
 	}
-	creator := sym.Choice("creator", 3)
-	nSigners := 1 + sym.Choice("signers", 2)
-	signers := make([]int, nSigners)
-	var signerStrs []string
-	for i := range signers {
-		signers[i] = sym.Choice("signer", 3)
-		signerStrs = append(signerStrs, c03Principals[signers[i]].String())
+	// a transaction of 1..2 messages, each with its own claimed creator and signer list
+	nMsgs := 1 + sym.Choice("messages", 2)
+	var msgs []sdk.Msg
+	authorised := true
+	for k := 0; k < nMsgs; k++ {
+		creator := sym.Choice("creator", 3)
+		nSigners := 1
+		if nMsgs == 1 {
+			nSigners = 1 + sym.Choice("signers", 2)
+		}
+		var signerStrs []string
+		ok := false
+		for i := 0; i < nSigners; i++ {
+			s := sym.Choice("signer", 3)
+			signerStrs = append(signerStrs, c03Principals[s].String())
+			if s == creator || grant[creator][s] {
+				ok = true
+			}
+		}
+		if !ok {
+			authorised = false
+		}
+		msgs = append(msgs, &types.MsgAddStatusUpdate{Status: "s", Metadata: valsettypes.MsgMetadata{Creator: c03Principals[creator].String(), Signers: signerStrs}})
 	}
-	msg := &types.MsgAddStatusUpdate{Status: "s", Metadata: valsettypes.MsgMetadata{Creator: c03Principals[creator].String(), Signers: signerStrs}}
 	passed := false
 	d := NewVerifyAuthorisedSignatureDecorator(fg)
-	_, err := d.AnteHandle(ctx, c03Tx{msgs: []sdk.Msg{msg}}, false, func(ctx sdk.Context, tx sdk.Tx, simulate bool) (sdk.Context, error) {
+	_, err := d.AnteHandle(ctx, c03Tx{msgs: msgs}, false, func(ctx sdk.Context, tx sdk.Tx, simulate bool) (sdk.Context, error) {
 		passed = true
 		return ctx, nil
 	})
-	authorised := false
-	for _, s := range signers {
-		if s == creator || grant[creator][s] {
-			authorised = true
-		}
-	}
 	if passed {
 		sym.Reach("ante-passed")
 		sym.Assert(err == nil, "pass-means-no-error")
-		sym.Assert(authorised, "passes-only-with-creator-or-grantee-signature")
+		sym.Assert(authorised, "passes-only-with-creator-or-grantee-signature-on-every-message")
 	} else {
 		sym.Reach("ante-rejected")
 		sym.Assert(!authorised, "authorised-signers-are-not-rejected")
